@@ -176,14 +176,15 @@ func (c *cryptConn) Write(p []byte) (int, error) {
 
 // onlineBehaviour describes what an online-mode client does with the EncryptionRequest.
 type onlineBehaviour struct {
-	Secret        []byte
-	ForgeToken    bool   // encrypt a different verify token
-	WrongKey      bool   // encrypt with a key that is not the proxy's
-	BadSecretLen  bool   // 15-byte secret
-	SkipJoin      bool   // do not announce to the session server (unauthenticated client)
-	AnnounceAs    string // announce under this username instead of the login name
-	ServerIDSeen  string
-	Responded     bool
+	Secret       []byte
+	ForgeToken   bool      // encrypt a different verify token
+	WrongKey     bool      // encrypt with a key that is not the proxy's
+	BadSecretLen bool      // 15-byte secret
+	SkipJoin     bool      // do not announce to the session server (unauthenticated client)
+	AnnounceAs   string    // announce under this username instead of the login name
+	UUID         *[16]byte // identity the session server hands out (default onlineUUID(name))
+	ServerIDSeen string
+	Responded    bool
 }
 
 // installOnline makes c behave as an online-mode client. It needs c.conn to be wrapped,
@@ -216,7 +217,11 @@ func installOnline(c *clientModel, ss *sessionServer, ob *onlineBehaviour) {
 			if ob.AnnounceAs != "" {
 				name = ob.AnnounceAs
 			}
-			ss.announce(serverID, name, onlineUUID(name))
+			id := onlineUUID(name)
+			if ob.UUID != nil {
+				id = *ob.UUID
+			}
+			ss.announce(serverID, name, id)
 		}
 		encSecret, _ := rsa.EncryptPKCS1v15(rand.Reader, pub, secret)
 		encToken, _ := rsa.EncryptPKCS1v15(rand.Reader, pub, token)
